@@ -72,6 +72,8 @@ def haversine_distance_meters(coord1: Coordinate, coord2: Coordinate) -> float:
     var1 = (math.sin(d_lat / 2) ** 2) + math.cos(lat1) * math.cos(lat2) * (
         math.sin(d_long / 2) ** 2
     )
+    # Rounding can push var1 an ulp above 1 for (near-)antipodal points
+    var1 = min(1.0, var1)
     return EARTH_RADIUS * 2 * math.atan2(math.sqrt(var1), math.sqrt(1 - var1))
 
 
